@@ -19,6 +19,12 @@ MU, C = ("self", "mean"), ("self", "covariance")
 PY, PX, Px = ("param", "Y"), ("param", "X"), ("param", "x")
 
 
+def make_point(rnd):
+    from .. import mnf_eval as ME
+    p = 5
+    return ME.Point(p, {C: ME.rand_spd(rnd, p), MU: ME.rand_vec(rnd, p), Px: ME.rand_vec(rnd, 2)}, {PY: [3, 0], PX: [4, 1]})
+
+
 def ctor_calls(S, qname):
     return [c for c in S.select("call", qname=qname) if c.target == ND + "__init__"]
 
@@ -42,14 +48,8 @@ def run(prog, rep, tier):
         except Inconclusive as e:
             rep.unk("FORMULA.conditional." + name, fwhere(f, c.node), "formula left the matrix fragment: %s" % e.why)
             continue
-        verdict = MN.compare(got, ref)
-        w = fwhere(f, c.node, construct="conditional %s" % name)
-        if verdict == "equal":
-            rep.ok("FORMULA.conditional." + name, w, "equals %s" % MN.show(ref))
-        elif verdict == "different":
-            rep.bad("FORMULA.conditional." + name, w, "conditional %s is %s but must be %s" % (name, MN.show(got), MN.show(ref)))
-        else:
-            rep.unk("FORMULA.conditional." + name, w, "different inverse structure: %s vs %s" % (MN.show(got), MN.show(ref)))
+        decide_formula(rep, "FORMULA.conditional." + name, fwhere(f, c.node, construct="conditional %s" % name), got, ref,
+                       "conditional " + name, make_point)
     rep.tables["conditional"] = {"mean": MN.show(ref_mean), "covariance": MN.show(ref_cov)}
     # guards
     raises = [r for r in S.select("raise", qname=f.qname) if r.exctype == "ValueError"]
@@ -99,8 +99,7 @@ def run(prog, rep, tier):
     for name, term, ref in (("mean", cs[0].args[0], rV(MU, PX)), ("covariance", cs[0].args[1], rB(C, PX, PX))):
         try:
             got = M.nf(term)
-            rep.check("FORMULA.marginal." + name, MN.key(got) == MN.key(ref), fwhere(f2, cs[0].node, construct="marginal " + name),
-                      "equals %s (requested order kept)" % MN.show(ref), "marginal %s is %s but must be %s" % (name, MN.show(got), MN.show(ref)))
+            decide_formula(rep, "FORMULA.marginal." + name, fwhere(f2, cs[0].node, construct="marginal " + name), got, ref, "marginal " + name, make_point)
         except Inconclusive as e:
             rep.unk("FORMULA.marginal." + name, fwhere(f2, cs[0].node), "left the matrix fragment: %s" % e.why)
     # the sibling helper the blocks go through
